@@ -1,6 +1,6 @@
 """C23 — The B+ tree is a correct versioned ordered map.
 spec/VersionedTree.tla (Impl = "bptree"): (M) exhaustive on 3 keys, (R) every edge of the bounded
-graph, every read on every small map, and simulated long behaviours over 6 / 90 / 700 keys
+graph, every read on every small map, and simulated long behaviours over 6 / 90 / 700 / 1300 keys
 (leaf and inner-node splits, redistribution, merges, root collapse of the B = 32 tree) replayed on
 the real bptree.MutableTree over memdb and goleveldb, with every cache size / fast-index setting."""
 import os, sys
@@ -28,7 +28,7 @@ def run(ctx):
     quick = ctx.tier == "quick"
     ecfg, rcfg, xcfg = ("VersionedTree_qe.cfg", "VersionedTree_qr.cfg", "VersionedTree_q.cfg") if quick else \
                        ("VersionedTree_te.cfg", "VersionedTree_tr.cfg", "VersionedTree_t.cfg")
-    n_s, n_m, n_l = (60, 24, 6) if quick else (3000, 600, 240)
+    n_s, n_m, n_l, n_x = (60, 24, 0, 8) if quick else (3000, 600, 240, 160)
     procs = 1 if quick else 6
     jobs = [
         lambda: R.tlc(ecfg, "exhaustive+edges 3 keys " + ecfg, tags=("EDGE",), timeout=3000, workers=6),
@@ -36,12 +36,13 @@ def run(ctx):
         lambda: R.tlc(xcfg, "exhaustive (no emission) " + xcfg, timeout=3000, workers=4),
         lambda: R.sims("VersionedTree_sims.cfg", "simulate 6 keys, 5 versions, 2 snapshots, depth 40", n_s, 45, procs=min(procs, 3), timeout=3000),
         lambda: R.sims("VersionedTree_simm.cfg", "simulate 90 keys, depth 50", n_m, 55, procs=procs, timeout=3000),
-        lambda: R.sims("VersionedTree_sim.cfg", "simulate 700 keys, 8 versions, depth 50", n_l, 55, procs=procs if quick else 8, timeout=3000),
+        lambda: R.sims("VersionedTree_sim.cfg", "simulate 700 keys, 8 versions, depth 50", n_l, 55, procs=8, timeout=3000) if n_l else [],
+        lambda: R.sims("VersionedTree_simx.cfg", "simulate 1300 keys (tree height 2: inner-node splits / merges), depth 50", n_x, 55, procs=2 if quick else 8, timeout=3000),
     ]
     rs = vt.parallel(jobs)
-    edges, redges, sims_s, sims_m, sims_l = rs[0].traces, rs[1].traces, rs[3], rs[4], rs[5]
+    edges, redges, sims_s, sims_m, sims_l, sims_x = rs[0].traces, rs[1].traces, rs[3], rs[4], rs[5], rs[6]
     ctx.cov["edges_emitted"] = len(edges) + len(redges)
-    ctx.log("TLC done: %d + %d edges, %d + %d + %d simulated behaviours" % (len(edges), len(redges), len(sims_s), len(sims_m), len(sims_l)))
+    ctx.log("TLC done: %d + %d edges, %d + %d + %d + %d simulated behaviours" % (len(edges), len(redges), len(sims_s), len(sims_m), len(sims_l), len(sims_x)))
     # every proper prefix of an edge behaviour is an edge behaviour of its own: the full projection
     # (all reads of the working tree and of every retained version) is compared on the last step,
     # replies on every step
@@ -51,6 +52,7 @@ def run(ctx):
         lambda: R.drive("VersionedTree_sims.cfg", sims_s, SIM_VARIANTS),
         lambda: R.drive("VersionedTree_simm.cfg", sims_m, SIM_VARIANTS),
         lambda: R.drive("VersionedTree_sim.cfg", sims_l, SIM_VARIANTS),
+        lambda: R.drive("VersionedTree_simx.cfg", sims_x, SIM_VARIANTS),
     ])
     R.finish()
     ctx.cov["exhaustive"] = True
